@@ -270,8 +270,8 @@ pub open spec fn fde_covers(initial: u64, range: u64, asz: u8, address: u64) -> 
 }
 // ==== MODULE read::cfi
 // ---- ghost relations between gimli's (private-field) types and the models above; lives in crate::read::cfi
-spec fn sb(s: &SectionBaseAddresses, func: Option<u64>) -> PeBases { PeBases { section: s.section, text: s.text, data: s.data, func: func } }
-spec fn ptr_is(p: Pointer, e: u8, a: int) -> bool { ptr_val(p) as int == a && (p is Indirect <==> pe_indirect(e)) }
+pub open spec fn sb(s: &SectionBaseAddresses, func: Option<u64>) -> PeBases { PeBases { section: s.section, text: s.text, data: s.data, func: func } }
+pub open spec fn ptr_is(p: Pointer, e: u8, a: int) -> bool { ptr_val(p) as int == a && (p is Indirect <==> pe_indirect(e)) }
 spec fn opt_enc(o: Option<constants::DwEhPe>) -> Option<u8> { match o { Some(e) => Some(e.0), None => None } }
 spec fn aug_is(a: Augmentation, st: AugSt) -> bool {
     opt_enc(a.lsda) == st.lsda && opt_enc(a.fde_address_encoding) == st.fde && a.is_signal_trampoline == st.sig
